@@ -61,6 +61,7 @@ Section Eval.
     | PrintExc => Some ([e_exc e], ONormal)
     | Throw t => Some ([], OExc (VNum t))
     | BuiltinFail => Some ([], OExc VErr)
+    | NativeFail => Some ([], OExc VValErr)
     | Break => Some ([], OBrk)
     | Continue => Some ([], OCont)
     | Return t => Some ([], ORet (VNum t))
